@@ -129,7 +129,7 @@ theorem covered_shimm (last fst : Bool) (hash hex : Bool) (v : Nat) (op : Txt) (
     have := (goodOp_shimm hash hex v op ah amt g2 g3 g4 hg2 hg3 hg4 hop).any last
     cases fst with
     | true => simpa using this.toFirst
-    | false => simpa using this.notFirst
+    | false => simpa using this.toRest
   · have h1 : pyInt0 (intDigits (shBase hash hex v)) = some (v : Int) := by
       have := pyInt0_int (shBase hash hex v)
       simpa [shBase, optNeg, intVal] using this
